@@ -161,6 +161,8 @@ impl<T> ParallelVecWriter<T> {
     fn reserve_space(&self, len: usize) -> usize {
         let start = self.end_len.fetch_add(len, Ordering::AcqRel);
         let end = start + len;
+        #[cfg(egglog_verif)]
+        crate::verif_hooks::perturb(30);
         let reader = self.data.read();
         let current_len = reader.len();
         let current_cap = reader.capacity();
